@@ -183,8 +183,10 @@ var drainFlagPool = []int64{1, 2, 100, 101, 103}
 
 type drainEval struct{}
 
-func (drainEval) Init(engine.Engine) error                       { return nil }
-func (drainEval) NextAction(key.TargetID) (logic.Action, error)  { return logic.Action{Type: logic.ActionAttack}, nil }
+func (drainEval) Init(engine.Engine) error { return nil }
+func (drainEval) NextAction(key.TargetID) (logic.Action, error) {
+	return logic.Action{Type: logic.ActionAttack}, nil
+}
 func (drainEval) DefaultAction(key.TargetID) (logic.Action, error) {
 	return logic.Action{Type: logic.ActionAttack}, nil
 }
